@@ -636,6 +636,7 @@ prop('C15',
       Stage('rand', ['harness/console.c'], CON, preset='asan', nproc=16,
             args={'quick': ['--extra', 'rand'], 'thorough': ['--extra', 'rand']},
             needs_min={'dispatches_compared_functionally': 50000, 'streams_with_line_near_the_79_limit': 10000, 'streams_with_cr_vt_ff_between_words': 10000,
+                       'dispatches_compared_with_a_quote_inside_a_bare_word': 1000,
                        'eval_injections': 10000}),
       Stage('reg', ['harness/console.c'], CON, preset='asan', nproc=8,
             args={'quick': ['--extra', 'reg'], 'thorough': ['--extra', 'reg']},
@@ -643,7 +644,8 @@ prop('C15',
       Stage('rand-clang', ['harness/console.c'], CON, preset='asan', cc='clang', nproc=16, tiers=('thorough',),
             args={'thorough': ['--extra', 'rand', '--cases', '2000000']})],
      assumptions=['functional oracle only on the unambiguous domain: first character neither blank nor quote, tokens '
-                  'separated by blanks, each bare without quote characters or wholly and non-emptily quoted; with more '
+                  'separated by white space, each bare (a quote character inside a bare word is an ordinary character: arguments '
+                  'are quoted as a whole and the line is split at white space only) or wholly and non-emptily quoted; with more '
                   'than four tokens argv[3] need only begin with the fourth token; after a line was completed by the '
                   'buffer filling, the next line is not predicted (the triggering character may or may not be kept)',
                   'console_putchar is fed in bursts that never overflow the 15-character ring (dropping is documented)',
